@@ -44,7 +44,7 @@ type ProjectRunner struct {
 	doneProcMutex     sync.Mutex
 	doneProcesses     map[string]*Process
 	logger            pclog.PcLogger
-	waitGroup         sync.WaitGroup
+	waitGroup         procWaitGroup
 	exitCode          int
 	projectState      *types.ProjectState
 	mainProcess       string
